@@ -4,6 +4,7 @@ import (
 	"fmt"
 	"strconv"
 	"strings"
+	"sync"
 
 	"github.com/truora/minidyn/types"
 )
@@ -20,6 +21,8 @@ type Native struct {
 	keyExpressions       map[string]MatcherFunc
 	writeCondExpressions map[string]MatcherFunc
 	updateExpressions    map[string]UpdaterFunc
+	// mu guards the four registries; it is a pointer because the tables hold copies of the struct
+	mu *sync.RWMutex
 }
 
 // NewNativeInterpreter returns a new native interpreter
@@ -29,7 +32,28 @@ func NewNativeInterpreter() *Native {
 		keyExpressions:       map[string]MatcherFunc{},
 		writeCondExpressions: map[string]MatcherFunc{},
 		updateExpressions:    map[string]UpdaterFunc{},
+		mu:                   &sync.RWMutex{},
 	}
+}
+
+func (ni *Native) rlock() func() {
+	if ni.mu == nil {
+		return func() {}
+	}
+
+	ni.mu.RLock()
+
+	return ni.mu.RUnlock
+}
+
+func (ni *Native) lock() func() {
+	if ni.mu == nil {
+		return func() {}
+	}
+
+	ni.mu.Lock()
+
+	return ni.mu.Unlock
 }
 
 // Match evalute the item with given expression and attributes
@@ -44,7 +68,10 @@ func (ni *Native) Match(input MatchInput) (bool, error) {
 
 // Update change the item with given expression and attributes
 func (ni *Native) Update(input UpdateInput) error {
+	unlock := ni.rlock()
 	updater, found := ni.updateExpressions[registrationKey(input.TableName, input.Expression)]
+	unlock()
+
 	if !found {
 		return fmt.Errorf(
 			"%w: updater not found for %q expression in table %q",
@@ -64,6 +91,8 @@ func (ni *Native) getMatcher(tablename, expression string, kind ExpressionType) 
 		matcher MatcherFunc
 		found   bool
 	)
+
+	defer ni.rlock()()
 
 	switch kind {
 	case ExpressionTypeKey:
@@ -113,6 +142,8 @@ func registrationKey(tablename, expression string) string {
 
 // AddUpdater add expression updater to use on key or filter queries
 func (ni *Native) AddUpdater(tablename string, expr string, updater UpdaterFunc) {
+	defer ni.lock()()
+
 	ni.updateExpressions[registrationKey(tablename, expr)] = updater
 }
 
@@ -120,6 +151,8 @@ func (ni *Native) AddUpdater(tablename string, expr string, updater UpdaterFunc)
 func (ni *Native) AddMatcher(tablename string, t ExpressionType, expr string, matcher MatcherFunc) {
 	// TODO validate the expresion(expr)
 	key := registrationKey(tablename, expr)
+
+	defer ni.lock()()
 
 	switch t {
 	case ExpressionTypeKey:
